@@ -272,3 +272,8 @@ package dns
 //@   pure
 //@ iface net.Conn.Write
 //@   pure
+
+// user-supplied private RDATA: Unpack fills only the value it is called on (trusted; the module cannot see
+// the implementation)
+//@ iface PrivateRdata.Unpack
+//@   modifies nothing
